@@ -111,3 +111,104 @@ package redis
 //@ func (*MockHandler).FlushAll
 //@   strict
 //@   requires m != nil
+
+// ---- real Redis provider (C12, C04): the argument handling in front of the go-redis client is
+// ---- strict for every argument vector (the client library itself is outside the contracts).
+//@ func NewHandler
+//@   strict
+//@ func NewHandlerFromOptions
+//@   strict
+//@ func (*Handler).Close
+//@   strict
+//@   requires h != nil && h.client != nil
+//@ func (*Handler).Ping
+//@   strict
+//@   requires h != nil && h.client != nil
+//@ func (*Handler).Get
+//@   strict
+//@   requires h != nil && h.client != nil
+//@ func (*Handler).Set
+//@   strict
+//@   requires h != nil && h.client != nil
+//@ func (*Handler).Del
+//@   strict
+//@   requires h != nil && h.client != nil
+//@   loop 1 invariant 0 <= rangeidx && len(strKeys) == len(keys)
+//@ func (*Handler).Exists
+//@   strict
+//@   requires h != nil && h.client != nil
+//@   loop 1 invariant 0 <= rangeidx && len(strKeys) == len(keys)
+//@ func (*Handler).Expire
+//@   strict
+//@   requires h != nil && h.client != nil
+//@ func (*Handler).Ttl
+//@   strict
+//@   requires h != nil && h.client != nil
+//@ func (*Handler).Incr
+//@   strict
+//@   requires h != nil && h.client != nil
+//@ func (*Handler).Decr
+//@   strict
+//@   requires h != nil && h.client != nil
+//@ func (*Handler).HGet
+//@   strict
+//@   requires h != nil && h.client != nil
+//@ func (*Handler).HSet
+//@   strict
+//@   requires h != nil && h.client != nil
+//@ func (*Handler).HDel
+//@   strict
+//@   requires h != nil && h.client != nil
+//@   loop 1 invariant 0 <= rangeidx && len(strFields) == len(fields)
+//@ func (*Handler).HGetAll
+//@   strict
+//@   requires h != nil && h.client != nil
+//@   loop 1 invariant out != nil
+//@ func (*Handler).HExists
+//@   strict
+//@   requires h != nil && h.client != nil
+//@ func (*Handler).LPush
+//@   strict
+//@   requires h != nil && h.client != nil
+//@ func (*Handler).RPush
+//@   strict
+//@   requires h != nil && h.client != nil
+//@ func (*Handler).LPop
+//@   strict
+//@   requires h != nil && h.client != nil
+//@ func (*Handler).RPop
+//@   strict
+//@   requires h != nil && h.client != nil
+//@ func (*Handler).LLen
+//@   strict
+//@   requires h != nil && h.client != nil
+//@ func (*Handler).LRange
+//@   strict
+//@   requires h != nil && h.client != nil
+//@   loop 1 invariant 0 <= rangeidx && len(out) == len(result)
+//@ func (*Handler).SAdd
+//@   strict
+//@   requires h != nil && h.client != nil
+//@ func (*Handler).SRem
+//@   strict
+//@   requires h != nil && h.client != nil
+//@ func (*Handler).SMembers
+//@   strict
+//@   requires h != nil && h.client != nil
+//@   loop 1 invariant 0 <= rangeidx && len(out) == len(result)
+//@ func (*Handler).SIsMember
+//@   strict
+//@   requires h != nil && h.client != nil
+//@ func (*Handler).Publish
+//@   strict
+//@   requires h != nil && h.client != nil
+//@ func (*Handler).Keys
+//@   strict
+//@   requires h != nil && h.client != nil
+//@   loop 1 invariant 0 <= rangeidx && len(out) == len(result)
+//@ func (*Handler).FlushAll
+//@   strict
+//@   requires h != nil && h.client != nil
+//@ func (*Handler).Client
+//@   strict
+//@   requires h != nil && h.client != nil
